@@ -284,11 +284,14 @@ def gen_cases(rng, tier):
         if rng.random() < 0.08:
             world = {'predefined': True, 'currencies': [u, v]}
         subs = []
-        for o in PAIR_OPS:
+        for o in PAIR_OPS + ['sum']:
             x = ['q', _numspec(rng, _grid_amount(rng, _sf(u))), u]
             y = ['q', _numspec(rng, _grid_amount(rng, _sf(v))), v]
             if o == 'convert':
                 op = {'o': 'convert', 'x': x, 'v': v}
+            elif o == 'sum':
+                # quantity.sum([x, y]) adds, so it raises like x + y (seeded C08-g)
+                op = {'o': 'sum', 'xs': [x, y]}
             else:
                 op = {'o': o, 'x': x, 'y': y}
             subs.append({'kind': 'op', 'world': world, 'dm': rng.choice(MODES), 'op': op})
@@ -680,7 +683,11 @@ def _oracle_op(case, r):
         return None
     sx = op['x'][2] if 'x' in op else None
     sy = op['y'][2] if 'y' in op else op.get('v')
-    for ob, spec in zip(r['ops'], [op.get('x'), op.get('y')]):
+    specs = [op.get('x'), op.get('y')]
+    if o == 'sum':
+        specs = op['xs']
+        sx, sy = specs[0][2], specs[1][2]
+    for ob, spec in zip(r['ops'], specs):
         if ob and spec and spec[0] == 'q' and _is_money(views, spec[2]):
             qu = views.units[spec[2]]['quantum']
             if qu and (F(ob['amt']) / qu).denominator != 1:
